@@ -22,7 +22,7 @@ import (
 // NN.
 
 func init() {
-	register(&Rule{ID: "C07.R6", Min: 40,
+	register(&Rule{ID: "C07.R6", Min: 33,
 		Text: "coefficients stay non-negative (sign abstract interpretation): assuming every operand's coefficient is non-negative, the coefficient of every Decimal written by an exported function is non-negative at every return — signed temporaries (setBig, Sub, SetInt64 of a variable) never reach a coefficient without Abs/Neg under the matching Sign() test",
 		Run:  ruleCoeffSignAI})
 }
